@@ -1,6 +1,8 @@
 import GT.Base.JsonQ
 import GT.Model.ND
 import GT.Model.Obj
+import GT.Model.Vectorised
+import GT.Base.QSqrt
 open Lean GT.J GT
 namespace GT.Driver.C04
 
@@ -141,11 +143,42 @@ def opBilinear (j : Json) : R Json := do
     | .error _ => pure none
   liftE (applyBilinear v₁ v₂ form)
 
+/-- `sqrt(abs(x))` over ℚ; `-1` marks an irrational root (checked before answering) -/
+def rabsQ (x : ℚ) : ℚ := if isSq |x| then rsqrt |x| else -1
+
+def opScaleLast (j : Json) : R Json := do liftE (scaleLast (← ndf j "x") (← ndf j "f"))
+
+/-- `hyperbolic.poincare_to_kleinian` -/
+def opP2k (j : Json) : R Json := do
+  let x ← ndf j "x"
+  if x.rank < 1 then throw "precondition: ndim < 1"
+  liftE (p2kND x)
+
+/-- `hyperbolic.kleinian_to_poincare` -/
+def opK2p (j : Json) : R Json := do
+  let x ← ndf j "x"
+  if x.rank < 1 then throw "precondition: ndim < 1"
+  match normsqND x with
+  | .error e => throw e
+  | .ok nn => if nn.data.any (fun a => !isSq |1 - a|) then throw "irrational-root"
+  liftE (k2pND rabsQ x)
+
+/-- `utils.normalize` (new value of the argument) -/
+def opNormalize (j : Json) : R Json := do
+  let v ← ndf j "v"
+  let f ← ndf j "form"
+  if v.rank < 1 then throw "precondition: ndim < 1"
+  match applyBilinear v v (some f) with
+  | .error e => throw e
+  | .ok sq => if sq.data.any (fun a => !isSq |a|) then throw "irrational-root"
+  liftE (normalizeLit rabsQ v f)
+
 def ops : List (String × Handler) :=
   [("nd.T", opT), ("nd.expand_range", opExpand), ("nd.squeeze", opSqueeze), ("nd.swapaxes", opSwap),
    ("nd.roll", opRoll), ("nd.sub", opSub), ("nd.select", opSelect), ("nd.slice", opSlice),
    ("nd.set_sub", opSetSub), ("nd.reshape", opReshape), ("nd.flatten_outer", opFlatten),
    ("nd.stack", opStack), ("nd.concat", opConcat), ("nd.zip", opZip), ("nd.matmul", opMatmul),
    ("c04.expand_unit_axes", opExpandUnit), ("c04.squeeze_excess", opSqueezeExcess),
-   ("c04.matrix_product", opMatrixProduct), ("c04.apply_bilinear", opBilinear)]
+   ("c04.matrix_product", opMatrixProduct), ("c04.apply_bilinear", opBilinear),
+   ("c04.scale_last", opScaleLast), ("c04.p2k", opP2k), ("c04.k2p", opK2p), ("c04.normalize", opNormalize)]
 end GT.Driver.C04
